@@ -313,6 +313,10 @@ func toggleElems(cond, text, htmlv, coll string) string {
 			for _, style := range []string{"", ` style="color:red"`, ` style="display:block; margin:0"`} {
 				fmt.Fprintf(&sb, `<p%s v-show="%s"%s%s>t%d</p>`, dir, cond, style, pad, i)
 			}
+			if dir != "" { // the same without any child node
+				fmt.Fprintf(&sb, `<aside%s v-show="%s" style="float: right"%s></aside>`, dir, cond, pad)
+				fmt.Fprintf(&sb, `<input%s :class="{on: %s}" class="k" v-once%s>`, dir, cond, pad)
+			}
 			fmt.Fprintf(&sb, `<p%s%s :class="{on: %s}" class="k">c%d</p>`, dir, pad, cond, i)
 			fmt.Fprintf(&sb, `<p%s%s v-once>o%d</p>`, dir, pad, i)
 			fmt.Fprintf(&sb, `<p%s%s v-if="%s" style="top:0" v-show="%s">i%d</p>`, dir, pad, cond, cond, i)
